@@ -19,16 +19,18 @@ import pandapower.toolbox as tb
 from mc import core
 from mc import netalpha as na
 
-TYPES = ("bus", "line", "load", "trafo3w")
+TYPES = ("bus", "line", "load", "trafo3w", "trafo", "switch")
 _UUID = re.compile(r"[0-9a-f]{8}-[0-9a-f]{4}-[0-9a-f]{4}-[0-9a-f]{4}-[0-9a-f]{12}")
-RES_COL = {"line": ("pl_mw", "ql_mvar"), "load": ("p_mw", "q_mvar"), "trafo3w": ("pl_mw", "ql_mvar")}
+RES_COL = {"line": ("pl_mw", "ql_mvar"), "load": ("p_mw", "q_mvar"), "trafo3w": ("pl_mw", "ql_mvar"), "trafo": ("pl_mw", "ql_mvar")}
 _BASE = {}
 
 
 def _mk_net():
     """6 buses: 0 (110) -T3W0- 1 (20) / 2 (10); 0 -T0- 3; 1 -L0- 3 -L1- 4 -L2- 5; loads ld0@1 ld1@2 ld2@4 ld3@5; all named.
-    g0 (index members)  : bus {4,5}  line {1,2}  load {2,3}  trafo3w {0}
-    g1 (reference 'name'): bus {3,4}  line {0,1}  load {2,1}"""
+    switches s0 (l, line 1 @3), s1 (t, trafo 0 @3), s2 (b 4-5, open); load.zid = [2,3,0,1] (integer reference column whose
+    values overlap the indices).
+    g0 (index members)  : bus {4,5}  line {1,2}  load {2,3}  trafo3w {0}  trafo {0}   (trafo3w and trafo share index 0)
+    g1 (reference columns): bus {3,4} by name, line {0,1} by name, load {1,2} by zid (stored [3,0])"""
     net = pp.create_empty_network(sn_mva=1.)
     pp.create_bus(net, 110., name="b0")
     pp.create_bus(net, 20., name="b1")
@@ -45,10 +47,13 @@ def _mk_net():
     pp.create_load(net, 2, 1.2, 0.2, name="ld1")
     pp.create_load(net, 4, 0.9, 0.4, name="ld2")
     pp.create_load(net, 5, 0.5, 0.1, name="ld3")
-    pp.create_switch(net, 3, 1, "l", closed=True, name="s1")
-    pp.create_group(net, ["bus", "line", "load", "trafo3w"], [[4, 5], [1, 2], [2, 3], [0]], name="g0")
-    pp.create_group(net, ["bus", "line", "load"], [["b3", "b4"], ["l0", "l1"], ["ld2", "ld1"]], name="g1",
-                    reference_columns="name")
+    pp.create_switch(net, 3, 1, "l", closed=True, name="s0")
+    pp.create_switch(net, 3, 0, "t", closed=True, name="s1")
+    pp.create_switch(net, 4, 5, "b", closed=False, name="s2")
+    net.load["zid"] = [2, 3, 0, 1]
+    pp.create_group(net, ["bus", "line", "load", "trafo3w", "trafo"], [[4, 5], [1, 2], [2, 3], [0], [0]], name="g0")
+    pp.create_group(net, ["bus", "line", "load"], [["b3", "b4"], ["l0", "l1"], [3, 0]], name="g1",
+                    reference_columns=["name", "name", "zid"])
     pp.runpp(net)
     return net
 
@@ -69,7 +74,7 @@ def base_net():
 
 def init():
     return {"net": copy.deepcopy(base_net()),
-            "model": {0: {"bus": {4, 5}, "line": {1, 2}, "load": {2, 3}, "trafo3w": {0}},
+            "model": {0: {"bus": {4, 5}, "line": {1, 2}, "load": {2, 3}, "trafo3w": {0}, "trafo": {0}},
                       1: {"bus": {3, 4}, "line": {0, 1}, "load": {1, 2}}},
             "res_ok": True, "dead": None, "viol": []}
 
@@ -82,7 +87,7 @@ def copy_state(s):
 # ------------------------------------------------------------------------------------------------
 # alphabet
 # ------------------------------------------------------------------------------------------------
-NAME = {"bus": "b%d", "line": "l%d", "load": "ld%d", "trafo3w": "t3w%d"}
+NAME = {"bus": "b%d", "line": "l%d", "load": "ld%d", "trafo3w": "t3w%d", "trafo": "t%d", "switch": "s%d"}
 
 CREATE = {  # tag -> (element types, members by ORIGINAL NAME suffix, reference column)
     "idx_line_load": (["line", "load"], [[0, 1], [0, 2]], None),
@@ -94,18 +99,23 @@ CREATE = {  # tag -> (element types, members by ORIGINAL NAME suffix, reference 
 ATTACH = [  # (group, element type, members, reference column passed)
     (0, "line", [0, 2], None), (0, "bus", [1, 4], None), (0, "load", [0], "name"),
     (1, "load", [0, 2], None), (1, "trafo3w", [0], None), (1, "line", [2], "name"), (1, "bus", [5], None),
+    (0, "switch", [1], None), (1, "switch", [2], None), (1, "trafo", [0], None),
 ]
-DETACH = [(0, "line", [1]), (0, "load", [2, 3]), (0, "bus", [4]), (0, "trafo3w", [0]),
+ATTACH_MANY = [([0, 1], "line", [2]), ([0, 1], "switch", [0])]     # the second one creates the row in both groups at once
+DETACH = [(0, "line", [1]), (0, "load", [2, 3]), (0, "bus", [4]), (0, "trafo3w", [0]), (0, "trafo", [0]), (1, "switch", [0]),
           (1, "line", [0]), (1, "load", [1, 2]), (1, "bus", [3, 0])]
 DETACH_ALL = [("line", [1]), ("load", [2])]
 DROPS = [("drop_elements", "load", [2]), ("drop_elements", "load", [0]), ("drop_buses", "bus", [5]), ("drop_buses", "bus", [1]),
-         ("drop_lines", "line", [1]), ("drop_lines", "line", [0]), ("drop_elements", "trafo3w", [0]), ("drop_elements", "bus", [4])]
+         ("drop_lines", "line", [1]), ("drop_lines", "line", [0]), ("drop_elements", "trafo3w", [0]), ("drop_elements", "bus", [4]),
+         ("drop_elements", "trafo", [0]), ("drop_elements", "switch", [0]), ("drop_buses", "bus", [2])]
 REIDX = {"line": {"1to7": [[1, 7]], "shift5": "shift5"}, "load": {"swap23": [[2, 3], [3, 2]], "shift5": "shift5"},
          "trafo3w": {"0to7": [[0, 7]]}, "bus": {"4to40": [[4, 40]]}, "group": {"0to5": [[0, 5]], "1to0": [[1, 0]]}}
 
-QUICK_SKIP = {("attach", 1, "bus"), ("attach", 1, "line"), ("attach", 0, "bus"), ("detach", 0, "trafo3w"), ("detach", 1, "bus"),
-              ("detach", 0, "bus"), ("detach_all", "load"),
-              ("drop", "load", 0), ("drop", "line", 0), ("drop", "bus", 4), ("drop", "bus", 1), ("drop", "trafo3w", 0),
+QUICK_SKIP = {("attach", 1, "bus"), ("attach", 1, "line"), ("attach", 0, "bus"), ("attach", 1, "switch"), ("attach", 1, "trafo"),
+              ("detach", 0, "trafo3w"), ("detach", 1, "bus"), ("detach", 0, "bus"), ("detach", 0, "line"), ("detach", 0, "trafo"),
+              ("detach", 1, "switch"), ("detach_all", "load"), ("drop_group", 1),
+              ("drop", "load", 0), ("drop", "line", 0), ("drop", "bus", 4), ("drop", "bus", 1), ("drop", "bus", 2), ("drop", "trafo", 0),
+              ("drop", "switch", 0),
               ("reindex", "load", "shift5"), ("reindex", "group", "1to0"), ("reindex", "bus", "4to40"), ("create", "idx_t3w_bus"),
               ("refcol", 0, None), ("refcol", 1, "name"), ("oos", 1)}
 
@@ -127,7 +137,8 @@ def _byname(net, et, nums):
     return out
 
 
-CORE = [["create_group", "idx_line_load"], ["attach_to_group", 0, "line", [0, 2], None], ["attach_to_group", 1, "load", [0, 2], None],
+CORE = [["attach_to_groups", [0, 1], "switch", [0]], ["attach_to_group", 0, "switch", [1], None], ["drop_elements", "trafo3w", [0]],
+        ["create_group", "idx_line_load"], ["attach_to_group", 0, "line", [0, 2], None], ["attach_to_group", 1, "load", [0, 2], None],
         ["attach_to_group", 1, "trafo3w", [0], None], ["detach_from_group", 0, "load", [2, 3]], ["detach_from_group", 1, "line", [0]],
         ["detach_from_groups", "line", [1]], ["drop_group", 0], ["drop_buses", "bus", [5]], ["drop_lines", "line", [1]],
         ["reindex_elements", "line", "1to7"], ["reindex_elements", "load", "swap23"], ["reindex_elements", "group", "0to5"],
@@ -156,8 +167,9 @@ def ops(s, tier="quick"):
             continue
         if g in model and _byname(net, et, idx) is not None:
             o.append(["attach_to_group", g, et, idx, rc])
-    if 0 in model and 1 in model and _byname(net, "line", [2]) is not None:
-        o.append(["attach_to_groups", [0, 1], "line", [2]])
+    for gs_, et, idx in ATTACH_MANY:
+        if all(g in model for g in gs_) and _byname(net, et, idx) is not None:
+            o.append(["attach_to_groups", gs_, et, idx])
     for g, et, idx in DETACH:
         if q and ("detach", g, et) in QUICK_SKIP:
             continue
@@ -169,7 +181,8 @@ def ops(s, tier="quick"):
         if _byname(net, et, idx) is not None and model:
             o.append(["detach_from_groups", et, idx])
     for g in gs:
-        o.append(["drop_group", g])
+        if not (q and ("drop_group", g) in QUICK_SKIP):
+            o.append(["drop_group", g])
     for fn, et, idx in DROPS:
         if q and ("drop", et, idx[0]) in QUICK_SKIP:
             continue
@@ -310,7 +323,7 @@ def _do(s, op):
     elif k == "set_group_reference_column":
         ppg.set_group_reference_column(net, op[1], op[2])
     elif k in ("set_group_out_of_service", "set_group_in_service"):
-        pre = {t: net[t]["in_service"].copy() for t in TYPES}
+        pre = {t: net[t]["in_service"].copy() for t in TYPES if "in_service" in net[t].columns}
         val = k == "set_group_in_service"
         (ppg.set_group_in_service if val else ppg.set_group_out_of_service)(net, op[1])
         s["flip"] = (op[1], val, pre)
@@ -412,7 +425,7 @@ def judge(s, op):
     # in / out of service flips exactly the members
     if s.get("flip"):
         gi, val, pre = s["flip"]
-        for et in TYPES:
+        for et in pre:
             post = net[et]["in_service"]
             mem = model.get(gi, {}).get(et, set())
             wrong = [int(i) for i in post.index if bool(post.at[i]) != (val if i in mem else bool(pre[et].at[i]))]
@@ -458,7 +471,7 @@ def canon(s):
     for t in ("bus", "line", "load", "trafo3w", "trafo", "switch", "ext_grid"):
         df = net[t]
         cols = [c for c in ("name", "in_service", "bus", "from_bus", "to_bus", "hv_bus", "mv_bus", "lv_bus", "element", "et", "closed")
-                if c in df.columns]
+                if c in df.columns] + (["zid"] if "zid" in df.columns else [])
         out[t] = [df.index.tolist(), df[cols].values.tolist()]
         rt = "res_" + t
         if rt in net:
